@@ -36,7 +36,7 @@ func runC09(c *Ctx, r *Rec) {
 	for _, name := range sortedKeys(ms) {
 		checkLoops(c, r, "D1-terminates-for-every-ranker", ms[name], nil)
 	}
-	r.floor("D1-terminates-for-every-ranker", 5)
+	r.floor("D1-terminates-for-every-ranker", 1)
 
 	// ---- D2 provenance of element stores
 	nstores := 0
